@@ -278,6 +278,17 @@ fn stack_bfs<W: BitArray>(max_bits: usize, wbits: usize) -> BfsResult {
 }
 
 fn report_bfs<W: BitArray>(report: &Report, max_bits: usize, only_inspection: bool) {
+    report_bfs_f::<W>(report, max_bits, if only_inspection { 1 } else { 0 })
+}
+/// filter: 0 = everything (C16), 1 = inspection identities (C08), 2 = size / emptiness / exhaustion queries (C18)
+fn keep(identity: &str, filter: u8) -> bool {
+    match filter {
+        0 => true,
+        1 => identity.contains("get_compressed") || identity.contains("as_decoder"),
+        _ => identity.contains("maybe_exhausted") || identity.contains("::len") || identity.contains("is_empty"),
+    }
+}
+fn report_bfs_f<W: BitArray>(report: &Report, max_bits: usize, filter: u8) {
     let wbits = W::BITS;
     let t = std::time::Instant::now();
     let r = stack_bfs::<W>(max_bits, wbits);
@@ -295,7 +306,7 @@ fn report_bfs<W: BitArray>(report: &Report, max_bits: usize, only_inspection: bo
         report.sample(s);
     }
     for (i, d) in r.bad {
-        if only_inspection && !i.contains("get_compressed") {
+        if !keep(&i, filter) {
             // C08 only judges inspections; other defects of the bit coders are C16's verdict
             report.count("non_inspection_anomalies_left_to_C16", 1);
             continue;
@@ -410,6 +421,9 @@ fn queue_case<W: BitArray>(bits: &[bool], bad: &mut Bad, counters: &mut [u64; 4]
 }
 
 fn queue_enum<W: BitArray>(report: &Report, max_bits: usize, only_inspection: bool) {
+    queue_enum_f::<W>(report, max_bits, if only_inspection { 1 } else { 0 })
+}
+fn queue_enum_f<W: BitArray>(report: &Report, max_bits: usize, filter: u8) {
     let t = std::time::Instant::now();
     let results: Vec<(Bad, [u64; 4], u64)> = (0..=max_bits)
         .into_par_iter()
@@ -443,7 +457,7 @@ fn queue_enum<W: BitArray>(report: &Report, max_bits: usize, only_inspection: bo
         report.count("bit_coder_inspections_at_word_boundary", c[1]);
         report.count("queue_full_readbacks", c[2]);
         for (i, d) in bad {
-            if only_inspection && !i.contains("get_compressed") {
+            if !keep(&i, filter) {
                 report.count("non_inspection_anomalies_left_to_C16", 1);
                 continue;
             }
@@ -649,6 +663,15 @@ pub fn inspection_checks(report: &Report) {
     report_bfs::<u16>(report, if q { 9 } else { 17 }, true);
     queue_enum::<u8>(report, if q { 12 } else { 17 }, true);
     queue_enum::<u16>(report, if q { 10 } else { 17 }, true);
+}
+
+/// C18's share: `len` / `is_empty` of the bit stack at every state of the BFS and `maybe_exhausted` of the bit
+/// queue decoder after every bit of every bit string
+pub fn size_query_checks(report: &Report) {
+    let q = report.tier == Tier::Quick;
+    report_bfs_f::<u8>(report, if q { 12 } else { 16 }, 2);
+    queue_enum_f::<u8>(report, if q { 12 } else { 17 }, 2);
+    queue_enum_f::<u16>(report, if q { 10 } else { 17 }, 2);
 }
 
 pub fn replay(case: &serde_json::Value) -> Result<String, String> {
